@@ -79,6 +79,8 @@ type expJ struct {
 	U1 unpJ   `json:"u1"`
 	R  packJ  `json:"r"`
 	U2 unpJ   `json:"u2"`
+	// Gen is the "generous" payloadStart distance of the run that produced the case (0: the run's parameter)
+	Gen int `json:"gen,omitempty"`
 }
 
 type params struct {
@@ -118,6 +120,9 @@ func touched(b, ref []byte, lo, hi int) int {
 	}
 	if hi > len(b) {
 		hi = len(b)
+	}
+	if lo > len(b) {
+		lo = len(b)
 	}
 	if hi < lo {
 		hi = lo
@@ -331,6 +336,9 @@ func (r *runner) runCase(idx int, e *expJ) int {
 		ps = oHead.Front
 	default:
 		ps = oHead.Front + r.prm.Gen
+		if e.Gen > 0 {
+			ps = oHead.Front + e.Gen
+		}
 	}
 	if ps != e.O.Ps {
 		r.drift(idx, e, 0, "the sender's advertised headroom differs from the model's constant", e.O.Ps, ps)
